@@ -220,6 +220,14 @@ def run(ctx):
                 empty = any(t and a[0] == 'call' and a[1].endswith('::is_empty') and a[2][0] == ('field', v[1], '0') for a, t in o.st.pc)
                 okp = src_ok and empty
                 ctx.add('P1.entry', entry, loc(B.root), okp, '%s() must return the tree of `%s` only when the remainder is empty' % (entry, top))
+                if src_ok:
+                    # ... and of the caller's string itself: every octet of it belongs to the filter (in the bare-item form the
+                    # value runs to the end of the input), so nothing may be cut off, trimmed or replaced before parsing
+                    arg = v[1][1][2][0] if v[1][1][2] else ('unk',)
+                    while arg[0] == 'call' and len(arg[2]) == 1 and arg[1].rsplit('::', 1)[-1] in ('as_ref', 'as_bytes', 'as_slice', 'borrow', 'deref', 'as_str', 'into', 'from'):
+                        arg = arg[2][0]
+                    ctx.add('P1.entry.whole-input', entry, loc(B.root), arg[0] == 'param',
+                            '%s() parses %s, not the caller\'s input as given: octets that belong to the filter (e.g. the end of a bare item\'s value) are dropped or altered before parsing' % (entry, absx.fmt(arg)[:80]))
         if not okp:
             ctx.add('P1.entry.reachable', entry, loc(B.root), okp, 'no accepting path found')
 
